@@ -192,8 +192,8 @@ def emit(top, tag):
     for n, cn in childnames:
       out.append(f"    s.{n} = {cn}()")
     for a, b in cmp.get("connects", []):
-      rhs = e_ref(b) if b[0] == "ref" else (str(b[1]) if b[0] == "i" else e_expr(b))
-      out.append(f"    connect( {e_ref(a)}, {rhs} )")
+      side = lambda x: e_ref(x) if x[0] == "ref" else (str(x[1]) if x[0] == "i" else e_expr(x))
+      out.append(f"    connect( {side(a)}, {side(b)} )")
     for bname, kind, stmts in cmp.get("blocks", []):
       out.append(f"    @{'update_ff' if kind == 'ff' else ('update_once' if kind == 'once' else 'update')}")
       out.append(f"    def {bname}():")
